@@ -7,4 +7,5 @@ SPECIFICATION Spec
 INVARIANT TypeOK
 INVARIANT CacheIsOfCurrentData
 INVARIANT ReweightedInherited
+ACTION_CONSTRAINT SimBias
 CHECK_DEADLOCK FALSE
